@@ -61,7 +61,7 @@ IsString(s) ==
        /\ ValidUtf8(SubSeq(bs, 1, nul - 1))
 StringSeqs(n) == { s \in SeqsUpTo(n) : IsString(s) }
 
-RECURSIVE OperandSeqs(_, _), ListSeqs(_, _, _)
+RECURSIVE OperandSeqs(_, _), ListSeqs(_, _, _), StarSeqs(_, _)
 \* exactly one concrete operand of kind k (with its parameters), at most n words
 OperandSeqs(k, n) ==
   IF n <= 0 THEN {}
@@ -72,13 +72,15 @@ OperandSeqs(k, n) ==
   ELSE IF Cat(k) = "BitEnum"
        THEN UNION { { <<w>> \o p : p \in ListSeqs(MaskParams(k, w), 1, n - 1) } : w \in { w \in Alpha : IsDeclaredMask(k, w) } }
   ELSE {}
-\* the operands ps[j..] each exactly once, at most n words in total
+\* the parameters ps[j..], each as often as its quantifier says, at most n words in total
 ListSeqs(ps, j, n) ==
   IF j > Len(ps) THEN { <<>> }
-  ELSE UNION { { a \o b : b \in ListSeqs(ps, j + 1, n - Len(a)) } : a \in OperandSeqs(ps[j].k, n) }
+  ELSE LET once == IF ps[j].q = "ZeroOrMore" THEN StarSeqs(ps[j].k, n)
+                   ELSE IF ps[j].q = "ZeroOrOne" THEN { <<>> } \cup OperandSeqs(ps[j].k, n)
+                   ELSE OperandSeqs(ps[j].k, n) IN
+       UNION { { a \o b : b \in ListSeqs(ps, j + 1, n - Len(a)) } : a \in once }
 
 \* repetitions of kind k, at most n words
-RECURSIVE StarSeqs(_, _)
 StarSeqs(k, n) == { <<>> } \cup UNION { { a \o b : b \in StarSeqs(k, n - Len(a)) } : a \in OperandSeqs(k, n) }
 
 \* operand words derivable from the logical operands sig[i..]: required present, optional ones only
